@@ -111,6 +111,32 @@ fn main() {
                 spawn_watchdog(out.clone(), limit);
             }
             let t0 = Instant::now();
+            let threads: u64 = arg(&args, "--threads").and_then(|s| s.parse().ok()).unwrap_or(1);
+            if threads > 1 {
+                // several sub-shards as THREADS of one process: calls from different threads overlap in time, so
+                // process-wide state in the library (a shared cache, a static) is exercised concurrently
+                let mut hs = vec![];
+                for k in 0..threads {
+                    let mut c2 = ctx.clone();
+                    c2.shard = ctx.shard * threads + k;
+                    c2.nshards = ctx.nshards * threads;
+                    let known2 = known.clone();
+                    let id2 = id.clone();
+                    let out2 = format!("{out}.t{k}");
+                    hs.push(std::thread::spawn(move || {
+                        let mut st = Stats::new(&id2, known2);
+                        let ok = mon::run(&c2, &mut st);
+                        let j = st.to_json(&c2, t0.elapsed().as_secs_f64());
+                        std::fs::write(&out2, serde_json::to_string(&j).unwrap()).expect("write out");
+                        ok
+                    }));
+                }
+                let ok = hs.into_iter().all(|h| h.join().unwrap_or(false));
+                if !ok {
+                    std::process::exit(2);
+                }
+                return;
+            }
             let mut st = Stats::new(&id, known);
             if !mon::run(&ctx, &mut st) {
                 eprintln!("unknown property {id}");
